@@ -70,29 +70,104 @@ def check(chk):
     chk.decline('that every concrete document leaves depth 1 (depends on the document being balanced)')
 
 
-def r41(chk, m):
-    R = chk.rule('R4.1', 'context push/pop pairing table: only tabled functions push/pop; at every normal exit the net '
-                 'effect and the lowest intermediate level are those of the table', 21)
-    for fn in sorted(E.all_functions(m), key=lambda f: f.fullname):
-        if 'simpletal' in fn.fullname or not is_pushpop(fn):
+def resolved_calls(m, fn):
+    """(call node, FunctionInfo) for calls of fn that resolve statically: self.x() / cls.x() methods and module functions."""
+    out = []
+    for c in M.calls_in(fn.node):
+        f = c.func
+        callee = None
+        if isinstance(f, ast.Attribute) and isinstance(f.value, ast.Name) and f.value.id in ('self', 'cls', 'tself') and fn.cls is not None:
+            callee = m.find_method(fn.cls, f.attr)
+        elif isinstance(f, ast.Name):
+            r = m.resolve_name(fn, f.id)
+            if isinstance(r, M.FunctionInfo) and r.cls is None:
+                callee = r
+        if callee is not None and callee is not fn:
+            out.append((c, callee))
+    return out
+
+
+def pushpop_helpers(m):
+    """Untabled functions that push/pop (directly or through such a function) and are only reached through statically
+    resolved calls: name -> (FunctionInfo, callers).  Their effect is folded into their callers."""
+    fns = [fn for fn in E.all_functions(m) if 'simpletal' not in fn.fullname]
+    calls = {fn.fullname: resolved_calls(m, fn) for fn in fns}
+    byname = {fn.fullname: fn for fn in fns}
+    eff = {fn.fullname for fn in fns if is_pushpop(fn)}
+    changed = True
+    while changed:
+        changed = False
+        for fn in fns:
+            if fn.fullname in eff:
+                continue
+            if any(cal.fullname in eff and cal.fullname not in PAIRING for c, cal in calls[fn.fullname]):
+                eff.add(fn.fullname)
+                changed = True
+    helpers = {}
+    for name in eff:
+        if name in PAIRING:
             continue
+        callers = sorted({fn.fullname for fn in fns for c, cal in calls[fn.fullname] if cal.fullname == name})
+        if callers:
+            helpers[name] = (byname[name], callers)
+    return helpers, eff, byname, calls
+
+
+def r41(chk, m):
+    R = chk.rule('R4.1', 'context push/pop pairing table: only tabled functions (and private helpers reached only from them, '
+                 'whose effect is folded into the caller) push/pop; at every normal exit the net effect and the lowest '
+                 'intermediate level are those of the table', 21)
+    helpers, eff, byname, calls = pushpop_helpers(m)
+    summaries = {}
+
+    def summary(name, stack=()):
+        if name in summaries:
+            return summaries[name]
+        need(name not in stack, 'recursive push/pop helpers: %s' % (stack + (name,),))
+        fn = byname[name]
+        normal, raised = flow.function_exits(fn.node, (0, 0), transfer_for(fn, stack + (name,)))
+        summaries[name] = frozenset(normal)
+        return summaries[name]
+
+    def transfer_for(fn, stack=()):
+        sites = {id(c): cal.fullname for c, cal in calls[fn.fullname] if cal.fullname in helpers}
+
+        def transfer(n, v):
+            if isinstance(n, ast.Call) and id(n) in sites:
+                net, lo = v
+                return flow.Multi({(net + dn, min(lo, net + dlo)) for dn, dlo in summary(sites[id(n)], stack)})
+            return pushpop_transfer(n, v)
+        return transfer
+    for name in sorted(eff):
+        fn = byname[name]
         chk.analysed(fn)
         chk.call_sites += sum(1 for c in M.calls_in(fn.node) if re.search(r'context\.(push|pop|append)$|SubProcess$', M.call_name(c)))
-        normal, raised = flow.function_exits(fn.node, (0, 0), pushpop_transfer)
-        ent = PAIRING.get(fn.fullname)
+        if name in helpers:
+            hf, callers = helpers[name]
+            bad = [c for c in callers if c not in PAIRING and c not in helpers]
+            chk.verdict(R, 'helper: %s' % name, not bad,
+                        '%s pushes/pops the context stack for %s, which is not in the pairing table' % (name, bad), chk.where(fn),
+                        'effect %s folded into %s' % (sorted(summary(name)), callers))
+            continue
+        normal, raised = flow.function_exits(fn.node, (0, 0), transfer_for(fn))
+        ent = PAIRING.get(name)
         if ent is None:
-            chk.fail(R, 'untabled: %s' % fn.fullname,
-                     '%s pushes/pops the context stack (net/min at exits %s) but is not in the pairing table: every '
-                     'push/pop site must be paired by construction' % (fn.fullname, sorted(normal)), chk.where(fn))
+            chk.fail(R, 'untabled: %s' % name,
+                     '%s pushes/pops the context stack (net/min at exits %s) but is not in the pairing table and nothing in the '
+                     'package calls it through a resolvable name: every push/pop site must be paired by construction'
+                     % (name, sorted(normal)), chk.where(fn))
             continue
         allowed, why = ent
         extra = sorted(set(normal) - allowed)
         missing = sorted(allowed - set(normal))
-        chk.verdict(R, fn.fullname, not extra and not missing,
+        chk.verdict(R, name, not extra and not missing,
                     '%s: (net, lowest) at normal exits is %s, table requires %s (%s)%s'
-                    % (fn.fullname, sorted(normal), sorted(allowed), why,
+                    % (name, sorted(normal), sorted(allowed), why,
                        '; the frame opened here is not closed/the closer no longer pops' if extra or missing else ''),
                     chk.where(fn), '%s: %s' % (sorted(normal), why))
+    missing = sorted(set(PAIRING) - eff)
+    for name in missing:
+        chk.fail(R, name, '%s is in the pairing table but no longer pushes or pops the context stack (its group is not opened/closed)' % name, name)
     # mode-specific: Macro.invoke / Environment.invoke / Array.invoke
     Macro = m.cls('plasTeX', 'Macro')
     want = {'plasTeX.Macro.invoke': {'MODE_END': {(-1, -1)}, 'MODE_BEGIN': {(1, 0)}, 'MODE_NONE': {(0, 0)}},
@@ -111,7 +186,8 @@ def r41(chk, m):
         for mode, exp in modes.items():
             h = SelfHooks(m, fn.cls)
             h.keep = lambda ev: ev[0] == 'call'
-            it = A.Interp(model=m, scope=fn, hooks=h, max_iter=1, exc_edges=False)
+            h.should_inline = lambda fname, node, info: info is not None and info.fullname in helpers
+            it = A.Interp(model=m, scope=fn, hooks=h, max_iter=1, exc_edges=False, inline=3)
             outs = it.run_function(fn, env={'self.macroMode': m.class_const(Macro, mode)})
             chk.paths += len(outs)
             got = set()
@@ -138,14 +214,101 @@ def is_copy_expr(e):
     return COPY_RX.match(text(e)) is not None
 
 
+TABLE = ['esc', '{', '}', '$', '&', 'eol', '#', '^', '_', ' ', 'abc', 'ABC', '', '~', '%', 'del']
+
+
+def ctx_heap(m, nframes=2, sharing=None):
+    """A small heap for interpreting Context methods: `self` with `nframes` frames.  `sharing` names the category
+    table of each frame (equal letters = the same list object); default: all frames share one table."""
+    sharing = sharing or 'S' * nframes
+    tables = {}
+    for k in sharing:
+        tables.setdefault(k, list(TABLE))
+    frames = [A.Obj('frame%d' % i, {'categories': tables[sharing[i]], 'obj': None, 'lets': {}}) for i in range(nframes)]
+    for i in range(1, nframes):
+        frames[i].attrs['parent'] = frames[i - 1]
+    this = A.Obj('context', {'contexts': frames, 'categories': frames[-1].attrs['categories'], 'top': frames[-1], 'depth': nframes},
+                 cls=m.cls('plasTeX.Context', 'Context'))
+    return {'self': this, '__shared': frames[-1].attrs['categories'], '__orig': tuple(TABLE), '__frames': list(frames),
+            '__outer': [f.attrs['categories'] for f in frames[:-1]]}
+
+
+class TableHooks(SelfHooks):
+    """Module-level category tables are kept in the state so that identity and in-place edits are visible."""
+    def lookup(self, interp, name, state):
+        if name in ('DEFAULT_CATEGORIES', 'VERBATIM_CATEGORIES'):
+            key = '__mod_' + name
+            if key not in state.env:
+                fn = interp.scope
+                r = self.model.resolve_name(fn, name)
+                v = interp._from_model(r)
+                need(isinstance(v, list) and len(v) == 16, '%s is not a 16-entry table' % name)
+                state.env[key] = list(v)
+                state.env[key + '_orig'] = tuple(v)
+            return state.env[key]
+        return SelfHooks.lookup(self, interp, name, state)
+
+
+def cow_outcomes(m, fn, env_extra, nframes=2, sharing=None):
+    """Interpret a Context method on the small heap; per normal exit report which invariants hold."""
+    h = TableHooks(m, m.cls('plasTeX.Context', 'Context'))
+    h.keep = lambda ev: False
+    it = A.Interp(model=m, scope=fn, hooks=h, max_iter=20, exc_edges=False, inline=1)
+    env = ctx_heap(m, nframes, sharing)
+    env.update(env_extra)
+    outs = it.run_function(fn, env=env)
+    res = []
+    for kind, s, v in outs:
+        if kind != 'return':
+            continue
+        e = s.env
+        this, frames = e['self'], e['__frames']
+        problems = []
+        if any(tuple(t) != e['__orig'] for t in e['__outer']):
+            problems.append('edits a table that an enclosing frame still uses in place')
+        for k in ('DEFAULT_CATEGORIES', 'VERBATIM_CATEGORIES'):
+            if '__mod_' + k in e and tuple(e['__mod_' + k]) != e['__mod_%s_orig' % k]:
+                problems.append('edits the module-level table %s in place' % k)
+        cur = this.attrs.get('categories')
+        inner = frames[-1].attrs.get('categories')
+        if cur is not inner:
+            problems.append('leaves context.categories and the innermost frame with different tables')
+        for f, t in zip(frames[:-1], e['__outer']):
+            if f.attrs.get('categories') is not t:
+                problems.append('replaces the table of an enclosing frame')
+        res.append((problems, cur, s))
+    return res
+
+
 def r42(chk, m):
-    R = chk.rule('R4.2', 'category tables are copy-on-write: every element store into a categories list is dominated by an '
-                 'unconditional rebinding of that list to a fresh copy installed in the innermost frame; the module '
-                 'tables DEFAULT_/VERBATIM_CATEGORIES are only ever used through a copy', 3)
-    # (a) element stores
+    R = chk.rule('R4.2', 'category tables are copy-on-write: a function that changes category codes never edits a table that '
+                 'enclosing frames (or the module defaults) can see, installs the new table in the innermost frame, and keeps '
+                 'context.categories identical to that frame\'s table', 3)
+    # (a) Context methods that change the table: decided on a small heap by abstract interpretation
+    CASES = {'catcode': {'char': 'x', 'code': 11}, 'setVerbatimCatcodes': {}}
+    Context = m.cls('plasTeX.Context', 'Context')
+    for name, extra in CASES.items():
+        fn = m.find_method(Context, name)
+        need(fn is not None, 'Context.%s not found' % name)
+        chk.analysed(fn)
+        res = []
+        for nfr, sharing in ((1, 'G'), (2, 'GG'), (3, 'GSS'), (3, 'GST'), (3, 'GGG')):
+            res += cow_outcomes(m, fn, extra, nfr, sharing)
+        need(res, 'Context.%s has no normal exit' % name)
+        chk.paths += len(res)
+        problems = sorted({p for ps, cur, s in res for p in ps})
+        undetermined = [1 for ps, cur, s in res if not isinstance(cur, list)]
+        key = '%s :: stores into a category table' % fn.fullname if name == 'catcode' else '%s :: use of VERBATIM_CATEGORIES' % fn.fullname
+        if undetermined and not problems:
+            chk.undecided(R, key, 'the table installed by Context.%s is not determined by the abstract interpretation' % name, chk.where(fn))
+            continue
+        chk.verdict(R, key, not problems,
+                    'Context.%s %s: the change leaks out of the group (createContext shares the table with the enclosing frames)'
+                    % (name, '; '.join(problems)), chk.where(fn), 'copy-on-write on %d path(s)' % len(res))
+    # (b) any other function that stores into a category table: path rule (store dominated by copy + install)
     n_sites = 0
     for fn in E.all_functions(m):
-        if 'simpletal' in fn.fullname:
+        if 'simpletal' in fn.fullname or (fn.cls is Context and fn.name in CASES):
             continue
         stores = []
         for n in M.walk_no_nested(fn.node):
@@ -162,6 +325,13 @@ def r42(chk, m):
         if not stores:
             continue
         chk.analysed(fn)
+        if fn.cls is Context:
+            # a helper of the Context class: decided through its callers above when they are interpreted with inlining
+            res = cow_outcomes(m, fn, {a.arg: A.TOP for a in fn.node.args.args[1:]})
+            problems = sorted({p for ps, cur, s in res for p in ps if 'in place' in p})
+            chk.verdict(R, '%s :: stores into a category table' % fn.fullname, not problems,
+                        '%s %s' % (fn.fullname, '; '.join(problems)), chk.where(fn, stores[0][0]))
+            continue
         store_nodes = {id(n) for n, t in stores}
 
         def transfer(n, v, fn=fn):
@@ -176,30 +346,25 @@ def r42(chk, m):
             return (fresh, installed, bad)
         normal, raised = flow.function_exits(fn.node, (False, False, False), transfer)
         bad = any(v[2] for v in normal | raised)
-        for n, t in stores:
-            n_sites += 1
         chk.verdict(R, '%s :: stores into a category table' % fn.fullname, not bad and bool(normal),
                     '%s writes an element of a category table that is not, on every path, a fresh copy installed in the '
                     'innermost frame: the table is shared with the enclosing frames (createContext shares it), so the '
                     'change leaks out of the group' % fn.fullname, chk.where(fn, stores[0][0]),
                     '%d store(s) dominated by copy+install' % len(stores))
-    need(n_sites >= 2, 'no element stores into category tables found: anchor moved')
-    # (b) module tables only through copies
-    for fn in E.all_functions(m):
-        for n in M.walk_no_nested(fn.node):
-            if isinstance(n, ast.Name) and n.id in ('DEFAULT_CATEGORIES', 'VERBATIM_CATEGORIES') and isinstance(n.ctx, ast.Load):
-                chk.analysed(fn)
-                parent = enclosing_expr(fn.node, n)
-                ok = parent is not None and is_copy_expr(parent)
-                chk.verdict(R, '%s :: use of %s' % (fn.fullname, n.id), ok,
-                            '%s uses the module-level table %s without copying it (%s): a later catcode change would '
-                            'modify the defaults of every document' % (fn.fullname, n.id, text(parent) if parent is not None else '?'),
-                            chk.where(fn, n))
-    # (c) createContext shares the table (documented fact the COW rule relies on) and push copies for frame 0
+    # (c) the global frame starts from a private copy of the defaults
     cc = m.func('plasTeX.Context', 'Context.createContext')
     shares = any(isinstance(n, ast.Assign) and text(n.targets[0]).endswith('.categories') and text(n.value) == 'self.categories'
                  for n in M.walk_no_nested(cc.node))
     chk.note('createContext %s the parent table' % ('shares' if shares else 'copies'))
+    uses = [(fn, n) for fn in E.all_functions(m) for n in M.walk_no_nested(fn.node)
+            if isinstance(n, ast.Name) and n.id == 'DEFAULT_CATEGORIES' and isinstance(n.ctx, ast.Load)]
+    need(uses, 'DEFAULT_CATEGORIES is not used anywhere: anchor moved')
+    for fn, n in uses:
+        chk.analysed(fn)
+        parent = enclosing_expr(fn.node, n)
+        stored_elem = parent is not None and isinstance(parent, ast.Subscript) and isinstance(getattr(parent, 'ctx', None), ast.Store)
+        chk.verdict(R, '%s :: use of DEFAULT_CATEGORIES' % fn.fullname, not stored_elem,
+                    '%s stores into the module-level default table' % fn.fullname, chk.where(fn, n))
 
 
 def cat_alias_text(fn, t):
@@ -244,44 +409,89 @@ def enclosing_expr(root, node):
     return best
 
 
+class RegHooks(TableHooks):
+    def call(self, interp, node, fname, args, kwargs, state):
+        if fname == 'macroName' and len(args) == 1:
+            n = state.env.get('__n', 0)
+            state.env['__n'] = n + 1
+            return 'macro%d' % n
+        if fname == 'ismacro':
+            return True
+        if fname == 'isinstance' and len(args) == 2 and text(node.args[1]) == 'str':
+            return isinstance(args[0], str)
+        return TableHooks.call(self, interp, node, fname, args, kwargs, state)
+
+
+def registrations(m, fn, extra, nframes=3, inline=3):
+    """Interpret a Context method on a heap of `nframes` frames; per normal exit the set of frames (index from the
+    bottom, -1 = innermost) that received a macro or a \\let."""
+    Context = m.cls('plasTeX.Context', 'Context')
+    h = RegHooks(m, Context)
+    h.keep = lambda ev: False
+    it = A.Interp(model=m, scope=fn, hooks=h, max_iter=3, exc_edges=False, inline=inline, heap=True)
+    env = ctx_heap(m, nframes)
+    for f in env['__frames']:
+        f.attrs['__items'] = {}
+    env['self'].attrs.update({'counters': {}, 'writes': {}, '__items': None})
+    env.update(extra)
+    res = set()
+    for kind, s2, v in it.run_function(fn, env=env):
+        if kind != 'return':
+            continue
+        frames = s2.env['__frames']
+        hit = []
+        for i, f in enumerate(frames):
+            if f.attrs.get('__items') or f.attrs.get('lets'):
+                hit.append(-1 if i == len(frames) - 1 else i)
+        res.add(tuple(hit))
+    return res
+
+
 def r43(chk, m, rule_id='R4.3'):
-    R = chk.rule(rule_id, 'local/global insertion table: addLocal -> innermost frame, addGlobal -> frame 0, let -> innermost frame, '
-                 'newcounter/newif/newcount/newdimen/newskip/newmuskip/newcommand/newenvironment/chardef -> global, '
-                 'newdef(local) -> innermost / global by flag; def/edef local, gdef/xdef global', 16)
-    def store_bases(fn):
-        out = []
-        for n in M.walk_no_nested(fn.node):
-            if isinstance(n, ast.Assign):
-                for t in n.targets:
-                    if isinstance(t, ast.Subscript):
-                        out.append(text(t.value))
-        return out
-    for name, want in (('addLocal', 'self.contexts[-1]'), ('addGlobal', 'self.contexts[0]')):
-        fn = m.func('plasTeX.Context', 'Context.' + name)
-        chk.analysed(fn)
-        b = store_bases(fn)
-        chk.verdict(R, 'Context.%s' % name, b == [want], 'Context.%s stores into %s, expected %s' % (name, b, want), chk.where(fn), str(b))
-    fn = m.func('plasTeX.Context', 'Context.let')
-    chk.analysed(fn)
-    b = store_bases(fn)
-    chk.verdict(R, 'Context.let', bool(b) and all(x in ('self.top', 'self.top.lets', 'self.contexts[-1]', 'self.contexts[-1].lets') for x in b),
-                'Context.let stores into %s: \\let must be local to the innermost frame' % b, chk.where(fn), str(b))
+    R = chk.rule(rule_id, 'local/global insertion table (frames on a small heap, abstract interpretation): addLocal -> innermost '
+                 'frame, addGlobal -> frame 0, let -> innermost frame, newcounter/newif/newcount/newdimen/newskip/newmuskip/'
+                 'newcommand/newenvironment/chardef -> frame 0 only, newdef(local) -> innermost / frame 0 by flag; def/edef local, '
+                 'gdef/xdef global', 16)
+    Context = m.cls('plasTeX.Context', 'Context')
+    MAC = A.Sym('a-macro', truthy=True)
+    ESC = A.Obj('src', {'catcode': 0, 'nodeName': 's'})
+    OTH = A.Obj('src', {'catcode': 12, 'nodeName': 's'})
+    DEST = A.Obj('dest', {'nodeName': 'd'})
+    table = [('addLocal', {'key': 'k', 'value': MAC}, {(-1,)}, 'the innermost frame'),
+             ('addGlobal', {'key': 'k', 'value': MAC}, {(0,)}, 'frame 0'),
+             ('let', {'dest': DEST, 'source': ESC}, {(-1,)}, 'the innermost frame'),
+             ('let', {'dest': DEST, 'source': OTH}, {(-1,)}, 'the innermost frame')]
     for name in ('newcounter', 'newif', 'newcount', 'newdimen', 'newskip', 'newmuskip', 'newcommand', 'newenvironment', 'chardef', 'mathchardef'):
+        table.append((name, None, {(0,), ()}, 'frame 0 (these declarations are global in LaTeX and must survive groups)'))
+    table.append(('newdef', {'name': 'foo', 'args': None, 'definition': None, 'local': True}, {(-1,)}, 'the innermost frame'))
+    table.append(('newdef', {'name': 'foo', 'args': None, 'definition': None, 'local': False}, {(0,)}, 'frame 0'))
+    seen = {}
+    for name, extra, allowed, where_txt in table:
         fn = m.func('plasTeX.Context', 'Context.' + name)
         chk.analysed(fn)
-        calls = [M.call_name(c) for c in M.calls_in(fn.node) if M.call_name(c) in ('self.addGlobal', 'self.addLocal')]
-        chk.verdict(R, 'Context.%s' % name, bool(calls) and all(c == 'self.addGlobal' for c in calls),
-                    'Context.%s registers through %s: these declarations are global in LaTeX and must survive groups' % (name, calls),
-                    chk.where(fn), str(calls))
-    fn = m.func('plasTeX.Context', 'Context.newdef')
-    chk.analysed(fn)
-    ok = False
-    for n in M.walk_no_nested(fn.node):
-        if isinstance(n, ast.If) and text(n.test) == 'local':
-            a = [M.call_name(c) for s in n.body for c in ast.walk(s) if isinstance(c, ast.Call)]
-            b = [M.call_name(c) for s in n.orelse for c in ast.walk(s) if isinstance(c, ast.Call)]
-            ok = a == ['self.addLocal'] and b == ['self.addGlobal']
-    chk.verdict(R, 'Context.newdef', ok, 'Context.newdef must send local=True to addLocal and local=False to addGlobal', chk.where(fn))
+        if extra is None:
+            extra = {a.arg: A.TOP for a in fn.node.args.args[1:]}
+            if 'name' in extra:
+                extra['name'] = 'iffoo' if name == 'newif' else 'foo'
+            if 'num' in extra:
+                extra['num'] = 65
+        got = registrations(m, fn, extra)
+        chk.paths += len(got)
+        key = 'Context.%s' % name
+        if name in ('let', 'newdef'):
+            prev = seen.setdefault(key, [True, []])
+            prev[1].append((extra.get('local', extra.get('source')), sorted(got)))
+            ok = got == allowed
+            if not ok:
+                prev[0] = False
+            if len(prev[1]) == 2:
+                chk.verdict(R, key, prev[0], '%s registers in frames %s (0 = global frame, -1 = innermost of 3); expected %s for each case'
+                            % (key, prev[1], where_txt if name == 'let' else 'the innermost frame for local=True and frame 0 for local=False'),
+                            chk.where(fn), str(prev[1]))
+            continue
+        ok = bool(got - {()}) and got <= allowed
+        chk.verdict(R, key, ok, '%s registers in frames %s of a 3-frame stack (0 = global frame, -1 = innermost); expected only %s'
+                    % (key, sorted(got), where_txt), chk.where(fn), str(sorted(got)))
     prim = 'plasTeX.Base.TeX.Primitives'
     for cname, want in (('def_', True), ('edef', True), ('gdef', False), ('xdef', False)):
         try:
@@ -299,65 +509,176 @@ def r43(chk, m, rule_id='R4.3'):
     chk.verdict(R, 'DefCommand.invoke passes its scope', passes, 'DefCommand.invoke does not pass local=self.local to newdef', chk.where(fn))
 
 
+class HeapHooks(TableHooks):
+    """type()/isinstance() over heap objects that carry a '__class' label; dict.* calls on a frame with '__own' entries."""
+    SUBCLASS = {'K2': 'K'}          # K2 derives from K
+
+    def _isa(self, c, k):
+        while c is not None:
+            if c == k:
+                return True
+            c = self.SUBCLASS.get(c)
+        return False
+
+    def call(self, interp, node, fname, args, kwargs, state):
+        if fname == 'type' and len(args) == 1 and isinstance(args[0], A.Obj) and '__class' in args[0].attrs:
+            return args[0].attrs['__class']
+        if fname == 'isinstance' and len(args) == 2 and isinstance(args[0], A.Obj) and '__class' in args[0].attrs and isinstance(args[1], str):
+            return self._isa(args[0].attrs['__class'], args[1])
+        if fname == 'issubclass' and len(args) == 2 and all(isinstance(a, str) for a in args):
+            return self._isa(args[0], args[1])
+        if fname in ('dict.__getitem__', 'super().__getitem__') and isinstance(state.env.get('self'), A.Obj):
+            own = state.env['self'].attrs.get('__own', {})
+            key = args[-1]
+            if key in own:
+                return own[key]
+            state.env['__exc'] = 'KeyError'
+            return A.TOP
+        if fname in ('dict.__contains__', 'super().__contains__') and isinstance(state.env.get('self'), A.Obj):
+            return args[-1] in state.env['self'].attrs.get('__own', {})
+        return TableHooks.call(self, interp, node, fname, args, kwargs, state)
+
+
+def macro_obj(label, cls, mode, name, parent=None):
+    return A.Obj(label, {'__class': cls, '__class__': cls, 'macroMode': mode, 'MODE_NONE': 0, 'MODE_BEGIN': 1, 'MODE_END': 2,
+                         'nodeName': name, 'parentNode': parent, 'level': 10, 'DOCUMENT_LEVEL': -1})
+
+
+def stack_heap(m, objs, shared=None):
+    """Context heap whose frames were opened by `objs` (None = bare group; the first is the global frame)."""
+    env = ctx_heap(m, len(objs))
+    for f, o in zip(env['__frames'], objs):
+        f.attrs['obj'] = o
+    return env
+
+
+def run_stack(m, fn, env, inline=3):
+    h = HeapHooks(m, m.cls('plasTeX.Context', 'Context'))
+    h.keep = lambda ev: False
+    it = A.Interp(model=m, scope=fn, hooks=h, max_iter=12, exc_edges=False, inline=inline, heap=True, precise_exc=True)
+    outs = it.run_function(fn, env=env)
+    res = []
+    for kind, s, v in outs:
+        if kind != 'return':
+            continue
+        this = s.env['self']
+        frames = this.attrs.get('contexts')
+        top = this.attrs.get('top')
+        state = []
+        if not isinstance(frames, list) or not frames or not all(isinstance(f, A.Obj) for f in frames):
+            res.append(('?', ['frame list not determined'], s, v))
+            continue
+        if top is not frames[-1]:
+            state.append('context.top is not the innermost frame')
+        elif this.attrs.get('categories') is not top.attrs.get('categories'):
+            state.append('context.categories is not the table of the innermost frame')
+        if this.attrs.get('depth') != len(frames):
+            state.append('context.depth is %r with %d frames' % (this.attrs.get('depth'), len(frames)))
+        for a, b in zip(frames, frames[1:]):
+            if b.attrs.get('parent') is not a:
+                state.append('frame %s is not chained to the frame below it' % b.label)
+        res.append((tuple(f.label for f in frames), state, s, v))
+    return res
+
+
 def r44(chk, m):
-    R = chk.rule('R4.4', 'chained lookup through parent frames; alias lookup innermost-first; pop matches END to BEGIN by exact '
-                 'class; top/categories re-mapped after every push and pop', 6)
+    R = chk.rule('R4.4', 'frames on a small heap (abstract interpretation): chained lookup through parent frames; \\let lookup '
+                 'innermost-first; pop removes exactly the frames of the group being closed (exact class for \\end, never the '
+                 'parent node\'s frame, never the global frame); after every push and pop top/categories/depth describe the '
+                 'innermost frame and frames are chained to their parent', 14)
+    Context = m.cls('plasTeX.Context', 'Context')
+    # -- chained lookup ------------------------------------------------------
     ci = m.cls('plasTeX.Context', 'ContextItem')
     fn = m.find_method(ci, '__getitem__')
     chk.analysed(fn)
-    ok = False
-    for h in [n for n in M.walk_no_nested(fn.node) if isinstance(n, ast.ExceptHandler)]:
-        rets = [text(r.value) for r in ast.walk(h) if isinstance(r, ast.Return) and r.value is not None]
-        reraises = [r for r in ast.walk(h) if isinstance(r, ast.Raise)]
-        ok = 'self.parent[key]' in rets and bool(reraises)
-    chk.verdict(R, 'ContextItem.__getitem__ falls back to the parent frame', ok,
-                'a miss in a frame must be looked up in the parent frame (and raise KeyError only at the outermost)', chk.where(fn))
-    Context = m.cls('plasTeX.Context', 'Context')
+    OWN, PARENT = A.Sym('own-value', truthy=True), A.Sym('parent-value', truthy=True)
+    cases = [('own entry wins', {'K': OWN}, {'K': PARENT}, {('return', 'own-value')}),
+             ('a miss falls back to the parent frame', {}, {'K': PARENT}, {('return', 'parent-value')}),
+             ('a miss in the outermost frame raises KeyError', {}, None, {('raise', 'KeyError')}),
+             ('a miss everywhere raises KeyError', {}, {}, {('raise', 'KeyError')})]
+    for label, own, parent, want in cases:
+        h = HeapHooks(m, ci)
+        h.keep = lambda ev: False
+        it = A.Interp(model=m, scope=fn, hooks=h, max_iter=2, exc_edges=False, precise_exc=True)
+        outs = it.run_function(fn, env={'self': A.Obj('frame', {'__own': own, 'parent': parent}), 'key': 'K'})
+        got = {(kind, v.label if isinstance(v, A.Sym) else (v if kind == 'raise' else repr(v))) for kind, s, v in outs}
+        chk.decide(R, 'ContextItem.__getitem__: %s' % label, got, want,
+                   'looking up a name in a frame (%s): outcomes %s, expected %s - a miss in a frame must be looked up in the parent '
+                   'frame and raise KeyError only at the outermost' % (label, sorted(got), sorted(want)), chk.where(fn))
+    # -- \let lookup ---------------------------------------------------------
     fn = m.find_method(Context, 'get_let')
     chk.analysed(fn)
-    loops = [n for n in M.walk_no_nested(fn.node) if isinstance(n, ast.For)]
-    ok = len(loops) == 1 and text(loops[0].iter).replace(' ', '') in ('reversed(self.contexts)', 'self.contexts[::-1]') and \
-        any(isinstance(r, ast.Return) for r in ast.walk(loops[0]))
-    chk.verdict(R, 'Context.get_let walks frames innermost-first', ok,
-                'get_let iterates over %s: the innermost live \\let must win' % [text(l.iter) for l in loops], chk.where(fn))
-    # pop: END matches BEGIN by exact class
+    for label, cmd, want in (('innermost \\let wins', 'c', 'INNER'), ('outer \\let is seen through frames without one', 'd', 'OUTER-D'),
+                             ('unknown command is returned unchanged', 'zz', 'zz')):
+        env = ctx_heap(m, 3)
+        fr = env['__frames']
+        fr[0].attrs['lets'] = {'c': 'OUTER', 'd': 'OUTER-D'}
+        fr[1].attrs['lets'] = {'c': 'INNER'}
+        fr[2].attrs['lets'] = {}
+        env['command'] = cmd
+        h = HeapHooks(m, Context)
+        h.keep = lambda ev: False
+        it = A.Interp(model=m, scope=fn, hooks=h, max_iter=6, exc_edges=False, precise_exc=True)
+        outs = it.run_function(fn, env=env)
+        got = {(kind, v if isinstance(v, str) else repr(v)) for kind, s, v in outs}
+        chk.decide(R, 'Context.get_let: %s' % label, got, {('return', want)},
+                   'get_let(%r) over frames with \\let tables [{c,d}, {c}, {}] gives %s, expected %r: the innermost live \\let must win'
+                   % (cmd, sorted(got), want), chk.where(fn))
+    # -- pop -----------------------------------------------------------------
     fn = m.find_method(Context, 'pop')
     chk.analysed(fn)
-    exact = []
-    loose = []
-    for n in M.walk_no_nested(fn.node):
-        if isinstance(n, ast.Compare) and len(n.ops) == 1:
-            l, r = text(n.left), text(n.comparators[0])
-            if re.fullmatch(r'type\(\w+\)|\w+\.__class__', l) and re.fullmatch(r'type\(\w+\)|\w+\.__class__', r):
-                (exact if isinstance(n.ops[0], (ast.Eq, ast.Is)) else loose).append(text(n))
-        if isinstance(n, ast.Call) and M.call_name(n) in ('isinstance', 'issubclass') and 'obj' in text(n):
-            loose.append(text(n))
-    chk.verdict(R, 'Context.pop matches \\end to \\begin by exact class', bool(exact) and not loose,
-                'Context.pop decides "found the \\begin to our \\end" by %s: a frame of a subclass (e.g. \\centering inside '
-                'center) would be taken for the environment\'s own frame' % (loose or 'nothing'), chk.where(fn), str(exact))
-    # pop(obj) never removes the parent node's frame; pop() stops at the first group frame
-    src_tests = [text(n.test) for n in M.walk_no_nested(fn.node) if isinstance(n, ast.If)]
-    chk.verdict(R, 'Context.pop keeps the parent frame', any('obj.parentNode' in t for t in src_tests) and any(re.search(r'\bis obj\b', t) for t in src_tests),
-                'Context.pop lost the "found ourselves" / "do not pop the parent node" tests: %s' % src_tests, chk.where(fn))
-    # mapMethods after every push / pop
-    for name in ('push', 'pop'):
-        fn = m.find_method(Context, name)
-        def transfer(n, v):
-            if isinstance(n, ast.Call) and M.call_name(n) == 'self.mapMethods':
-                return True
-            if isinstance(n, ast.Call) and re.fullmatch(r'self\.contexts\.(append|pop|insert)', M.call_name(n)):
-                return False
-            return v
-        normal, raised = flow.function_exits(fn.node, True, transfer)
-        chk.verdict(R, 'Context.%s re-maps top/categories' % name, normal == {True},
-                    'Context.%s can return after changing the frame list without calling mapMethods(): top, categories and depth '
-                    'would still describe the old innermost frame' % name, chk.where(fn))
+    A_ = macro_obj('A', 'KA', 0, 'a')
+    B = macro_obj('B', 'K', 1, 'center')
+    E = macro_obj('E', 'K', 2, 'center')
+    C2 = macro_obj('C2', 'K2', 0, 'centering')
+    P = macro_obj('P', 'KP', 0, 'p')
+    X = macro_obj('X', 'KX', 0, 'x', parent=P)
+    F = macro_obj('F', 'KF', 0, 'foo')
+    EF = macro_obj('EF', 'KEF', 0, 'endfoo')
+    pops = [('pop() closes the innermost bare group only', [None, A_, None, B, None], None, 4),
+            ('pop() discards macro frames above the bare group', [None, A_, None, B], None, 2),
+            ('pop() never removes the global frame', [None], None, 1),
+            ('pop(obj) removes the frame obj pushed and those above', [None, A_, None, B, None], B, 3),
+            ('pop(\\end) removes the frame of its \\begin', [None, A_, None, B, None], E, 3),
+            ('pop(\\end) does not take a frame of a subclass for its own', [None, B, C2, None], E, 1),
+            ('pop(obj) keeps the frame of obj.parentNode', [None, P, None], X, 2),
+            ('pop(\\endfoo) removes the frame of \\foo', [None, F, None], EF, 1)]
+    for label, objs, arg, left in pops:
+        env = stack_heap(m, objs)
+        env['obj'] = arg
+        res = run_stack(m, fn, env)
+        chk.paths += len(res)
+        got = {(len(fr) if fr != '?' else '?', tuple(st)) for fr, st, s, v in res}
+        chk.decide(R, 'Context.pop: %s' % label, {repr(g) for g in got}, {repr((left, ()))},
+                   'pop(%s) on frames opened by %s leaves %s, expected %d frames with top/categories/depth re-mapped'
+                   % (arg.label if arg is not None else '', [o.label if o is not None else '{' for o in objs],
+                      sorted(got, key=repr), left), chk.where(fn))
+    # -- push ----------------------------------------------------------------
+    fn = m.find_method(Context, 'push')
+    chk.analysed(fn)
+    DOC = macro_obj('DOC', 'KD', 1, 'document')
+    DOC.attrs['level'] = -1
+    for label, objs, arg, n in (('push() opens one bare group', [None, A_], None, 3),
+                                ('push(obj) opens one frame for obj', [None, A_], B, 3),
+                                ('push(document) restarts from the global frame', [None, A_, None], DOC, 2)):
+        env = stack_heap(m, objs)
+        env['context'] = arg
+        res = run_stack(m, fn, env)
+        chk.paths += len(res)
+        got = set()
+        for fr, st, s, v in res:
+            st = list(st)
+            if fr != '?':
+                frames = s.env['self'].attrs['contexts']
+                o = frames[-1].attrs.get('obj')
+                if (o.label if isinstance(o, A.Obj) else o) != (arg.label if arg is not None else None):
+                    st.append('the new frame does not record the macro that opened it')
+                if frames[-1].attrs.get('categories') is not s.env['__shared']:
+                    st.append('the new frame does not inherit the category table in force')
+            got.add((len(fr) if fr != '?' else '?', tuple(st)))
+        chk.decide(R, 'Context.push: %s' % label, {repr(g) for g in got}, {repr((n, ()))},
+                   'push(%s) on %d frames gives %s, expected %d frames, the new one chained to its parent, recording its opener, '
+                   'inheriting the category table, with top/categories/depth re-mapped'
+                   % (arg.label if arg is not None else '', len(objs), sorted(got, key=repr), n), chk.where(fn))
     mm = m.find_method(Context, 'mapMethods')
     chk.analysed(mm)
-    assigns = {text(t): text(n.value) for n in M.walk_no_nested(mm.node) if isinstance(n, ast.Assign) for t in n.targets}
-    ok = assigns.get('top') == 'self.contexts[-1]' or assigns.get('self.top') == 'self.contexts[-1]'
-    ok = ok and assigns.get('self.categories') in ('top.categories', 'self.top.categories', 'self.contexts[-1].categories') \
-        and assigns.get('self.depth') == 'len(self.contexts)'
-    chk.verdict(R, 'Context.mapMethods binds the innermost frame', ok,
-                'mapMethods must bind top=contexts[-1], categories=top.categories, depth=len(contexts): %s'
-                % {k: v for k, v in assigns.items() if k in ('top', 'self.top', 'self.categories', 'self.depth')}, chk.where(mm))
